@@ -15,7 +15,7 @@ from harness.lib import core
 from harness.lib.core import Corr, Prop, blit, llit, olit, qlit, slit, zlit
 
 HEADER = ("From Coq Require Import List Bool ZArith QArith String.\n"
-          "From PE Require Import Base.CaseUtil Model.Transform Model.Dataset.\n"
+          "From PE Require Import Base.CaseUtil Model.EnumParse Model.Transform Model.Dataset.\n"
           "Import ListNotations.\nOpen Scope string_scope.\nOpen Scope Z_scope.\nOpen Scope Q_scope.\n")
 TOL = 1e-9
 WINDOW_US = 3150000      # PredictHelper: seconds (3.0) + BUFFER (0.15), in microseconds
@@ -76,7 +76,7 @@ def _vec(rng, lim=2048, zlim=64):
     return [rng.randint(-lim, lim), rng.randint(-lim, lim), rng.randint(-zlim, zlim)]     # eighths
 
 
-def gen_dataset(rng, K=None, M=None, shuffle_samples=None, ident_calib=None, empty_vis=False, boundary_times=False):
+def gen_dataset(rng, K=None, M=None, shuffle_samples=None, ident_calib=None, empty_vis=False, steps=None, p_present=None):
     used = set()
     K = rng.randint(1, 8) if K is None else K
     M = rng.randint(0, 6) if M is None else M
@@ -85,7 +85,7 @@ def gen_dataset(rng, K=None, M=None, shuffle_samples=None, ident_calib=None, emp
     times = []
     for i in range(K):
         times.append(t)
-        t += rng.choice([3150000, 3149999, 3150001, 1575000, 1050000] if boundary_times else STEPS_US)
+        t += rng.choice(steps or STEPS_US)
     stoks = [_tok(rng, used) for _ in range(K)]
     samples = [{"token": stoks[i], "timestamp": times[i], "prev": stoks[i - 1] if i else "", "next": stoks[i + 1] if i + 1 < K else ""}
                for i in range(K)]
@@ -146,8 +146,8 @@ def gen_dataset(rng, K=None, M=None, shuffle_samples=None, ident_calib=None, emp
     insts = [{"token": _tok(rng, used), "category": rng.choice(cats)["token"]} for _ in range(M)]
     anns = []
     for ins in insts:
-        p_present = rng.choice([0.4, 0.7, 1.0])
-        present = [st for st in time_order if rng.random() < p_present]
+        pp = rng.choice([0.4, 0.7, 1.0]) if p_present is None else p_present
+        present = [st for st in time_order if rng.random() < pp]
         if not present and rng.random() < 0.7:
             present = [rng.choice(time_order)]
         pos = _vec(rng)
@@ -289,8 +289,10 @@ def load_config(root, task, frame, merge):
     conv = LabelConverter(et, merge, "autoware")
     try:
         frames = load_all_datasets([root], et, conv, FrameID.from_value(frame), False)
-    except (KeyError, ValueError, AssertionError, IndexError) as e:
-        return {"error": type(e).__name__}
+    except Exception as e:
+        if type(e).__name__ in ("KeyError", "ValueError", "DatasetLoadingError"):
+            return {"error": type(e).__name__}
+        raise
     return {"frames": observe_frames(frames)}
 
 
@@ -579,3 +581,218 @@ def cross_frame(ds, configs, obs):
         if [fr["ego2map"] for fr in a] != [fr["ego2map"] for fr in b]:
             return "the map-frame and the base_link-frame load store different ego-to-map transforms"
     return None
+
+
+# ------------------------------------------------------------------------------------------------
+# malformed datasets (one fault each): only the model correspondence speaks about them
+# ------------------------------------------------------------------------------------------------
+FAULTS = ["dangling_instance", "dangling_category", "dangling_ego", "dangling_vis", "dangling_attr", "dangling_next", "dangling_prev",
+          "dangling_cs_sensor", "no_lidar", "bad_channel", "no_samples", "dangling_sd_sample", "dangling_ann_sample"]
+
+
+def inject_fault(ds, kind, rng):
+    """Returns True if the fault could be injected."""
+    if kind == "no_samples":
+        ds["samples"], ds["sample_data"], ds["ann"] = [], [], []
+        return True
+    if kind in ("dangling_instance", "dangling_vis", "dangling_attr", "dangling_next", "dangling_prev", "dangling_ann_sample"):
+        if not ds["ann"] or (kind == "dangling_vis" and not ds["visibility"]):
+            return False
+        a = rng.choice(ds["ann"])
+        key = {"dangling_instance": "instance", "dangling_vis": "vis", "dangling_next": "next", "dangling_prev": "prev",
+               "dangling_ann_sample": "sample"}.get(kind)
+        if key:
+            a[key] = "nosuchtoken"
+        else:
+            a["attrs"] = a["attrs"] + ["nosuchtoken"]
+        return True
+    if kind == "dangling_category":
+        used = {a["instance"] for a in ds["ann"]}
+        cand = [i for i in ds["instance"] if i["token"] in used]
+        if not cand:
+            return False
+        rng.choice(cand)["category"] = "nosuchtoken"
+        return True
+    sensor = {s["token"]: s for s in ds["sensor"]}
+    cs = {c["token"]: c for c in ds["calibrated_sensor"]}
+    lidar_sds = [d for d in ds["sample_data"] if d["key"] and sensor[cs[d["cs"]]["sensor"]]["modality"] == "lidar"]
+    if kind == "dangling_ego":
+        for d in lidar_sds:
+            if d["sample"] == lidar_sds[0]["sample"]:
+                d["ego"] = "nosuchtoken"
+        return True
+    if kind == "dangling_sd_sample":
+        rng.choice(lidar_sds)["sample"] = "nosuchtoken"
+        return True
+    if kind == "no_lidar":
+        victim = rng.choice(ds["samples"])["token"]
+        for d in lidar_sds:
+            if d["sample"] == victim:
+                d["key"] = False
+        return True
+    if kind == "dangling_cs_sensor":
+        ds["calibrated_sensor"].append({"token": "extra_cs", "sensor": "nosuchtoken", "q": list(IDENT_Q), "t": [0, 0, 0]})
+        return True
+    if kind == "bad_channel":
+        ds["sensor"].append({"token": "extra_sensor", "channel": rng.choice(["FOO", "LIDAR", "cam"]), "modality": "radar"})
+        ds["calibrated_sensor"].append({"token": "extra_cs", "sensor": "extra_sensor", "q": list(IDENT_Q), "t": [8, 0, 0]})
+        return True
+    return False
+
+
+# ------------------------------------------------------------------------------------------------
+# the correspondence
+# ------------------------------------------------------------------------------------------------
+def pick_configs(rng):
+    """both frames x {tracking, a non-tracking task}; merge flag and detection/sensing vary"""
+    out = []
+    for frame in FRAMES:
+        out.append(["tracking", frame, rng.random() < 0.5])
+        out.append([rng.choice(["detection", "sensing"]), frame, rng.random() < 0.5])
+    rng.shuffle(out)
+    return out
+
+
+class LoadCorr(Corr):
+    name = "load"
+    header = HEADER
+    requires = ["Model/Dataset.vo", "Base/CaseUtil.vo"]
+    shard = 12
+    parallel_min = 4
+
+    def cases(self, tier, rng):
+        out = []
+
+        def add(stream, ds, configs=None, fault=None):
+            out.append({"stream": stream, "ds": ds, "configs": configs or pick_configs(rng), "fault": fault})
+
+        n_typ, n_bnd, n_mal = (110, 50, 26) if tier == "quick" else (1500, 700, 260)
+        # regression / witnesses first: the smallest dataset, and one with everything, under all 12 configurations
+        add("typical", gen_dataset(rng, K=1, M=1, shuffle_samples=False), ALL_CONFIGS)
+        add("typical", gen_dataset(rng, K=5, M=4, shuffle_samples=True, ident_calib=False), ALL_CONFIGS)
+        for _ in range(n_typ):
+            add("typical", gen_dataset(rng))
+        for i in range(n_bnd):
+            kind = i % 7
+            if kind == 0:      # sample times exactly at / next to the 3.15 s history window
+                ds = gen_dataset(rng, K=rng.randint(2, 5), M=rng.randint(1, 4), steps=[3150000, 3149999, 3150001, 1575000, 1050000], p_present=1.0)
+            elif kind == 1:    # more than 6 preceding samples inside the window
+                ds = gen_dataset(rng, K=8, M=rng.randint(1, 3), steps=[100000, 400000, 450000], p_present=rng.choice([1.0, 0.9]))
+            elif kind == 2:    # no visibility table
+                ds = gen_dataset(rng, empty_vis=True)
+            elif kind == 3:    # no objects at all / a single sample
+                ds = gen_dataset(rng, M=0) if i % 2 else gen_dataset(rng, K=1)
+            elif kind == 4:    # table order differs from time order, general calibration
+                ds = gen_dataset(rng, K=rng.randint(3, 8), shuffle_samples=True, ident_calib=False)
+            elif kind == 5:    # long gaps: histories cut by the window
+                ds = gen_dataset(rng, K=rng.randint(3, 8), M=rng.randint(1, 4), steps=[2000000, 3200000, 1200000, 3150000], p_present=1.0)
+            else:              # lidar at the ego origin (the T4 case of the property text), dense instances
+                ds = gen_dataset(rng, K=rng.randint(2, 8), M=rng.randint(2, 6), ident_calib=True, p_present=0.8)
+            add("boundary", ds)
+        for i in range(n_mal):
+            ds = gen_dataset(rng, K=rng.randint(1, 4), M=rng.randint(1, 4))
+            fault = FAULTS[i % len(FAULTS)]
+            if inject_fault(ds, fault, rng):
+                add("malformed", ds, fault=fault)
+        return out
+
+    def run_impl(self, case):
+        return run_dataset(case["ds"], case["configs"])
+
+    def coq_term(self, case, obs):
+        items = [f"({COQ_TASK[t]}, {COQ_FRAME[f]}, {blit(m)}, {coq_obs(o)})" for (t, f, m), o in zip(case["configs"], obs)]
+        return f"(check_case {coq_dataset(case['ds'])}\n {llit(items)})"
+
+    def coq_debug(self, case, obs):
+        t, f, m = case["configs"][0]
+        return f"(load {coq_dataset(case['ds'])} {COQ_TASK[t]} {COQ_FRAME[f]} {blit(m)})"
+
+    def oracle(self, case, obs):
+        if case["fault"]:
+            return None     # the property speaks about well-formed datasets only
+        for (t, f, m), o in zip(case["configs"], obs):
+            msg = oracle_config(case["ds"], t, f, m, o)
+            if msg:
+                return f"[{t}, {f}, merge={m}] {msg}"
+        return cross_frame(case["ds"], case["configs"], obs)
+
+    def nontrivial(self, case, obs):
+        ds = case["ds"]
+        if case["fault"] or len(ds["samples"]) < 2 or not ds["ann"]:
+            return False
+        return any(a["prev"] for a in ds["ann"])
+
+    def describe(self, case, obs):
+        ds = case["ds"]
+        return {"case": {"stream": case["stream"], "fault": case["fault"], "configs": case["configs"],
+                         "n_samples": len(ds["samples"]), "n_annotations": len(ds["ann"]), "n_sensors": len(ds["sensor"]),
+                         "categories": [c["name"] for c in ds["category"]], "visibility_levels": [v["level"] for v in ds["visibility"]]},
+                "observed": [({"error": o["error"]} if "error" in o else
+                              {"frames": [{"unix_time": fr["unix_time"], "objects": [[ob["uuid"], ob["label"], ob["vis"]] for ob in fr["objects"]]}
+                                          for fr in o["frames"][:3]]}) for o in obs[:2]]}
+
+    def distribution(self, cases, obs):
+        d = {"streams": {}, "samples_per_dataset": {}, "annotations_total": 0, "objects_observed": 0, "configs": {}, "labels": {},
+             "visibility": {}, "history_lengths": {}, "errors": {}, "identity_calibration": 0, "general_calibration": 0,
+             "table_order_differs_from_time_order": 0, "sensors_per_dataset": {}, "registered_category": 0, "unregistered_category": 0}
+        for c, ob in zip(cases, obs):
+            ds = c["ds"]
+            d["streams"][c["stream"]] = d["streams"].get(c["stream"], 0) + 1
+            k = str(len(ds["samples"]))
+            d["samples_per_dataset"][k] = d["samples_per_dataset"].get(k, 0) + 1
+            k = str(len(ds["sensor"]))
+            d["sensors_per_dataset"][k] = d["sensors_per_dataset"].get(k, 0) + 1
+            d["annotations_total"] += len(ds["ann"])
+            sensor = {s["token"]: s for s in ds["sensor"]}
+            lid = [x for x in ds["calibrated_sensor"] if x["sensor"] in sensor and sensor[x["sensor"]]["modality"] == "lidar"]
+            if lid and all(x["q"] == list(IDENT_Q) and x["t"] == [0, 0, 0] for x in lid):
+                d["identity_calibration"] += 1
+            else:
+                d["general_calibration"] += 1
+            ts = [s["timestamp"] for s in ds["samples"]]
+            if ts != sorted(ts):
+                d["table_order_differs_from_time_order"] += 1
+            for cat in ds["category"]:
+                d["registered_category" if cat["name"].lower() in EXPECT_LABEL else "unregistered_category"] += 1
+            if not isinstance(ob, list):
+                continue
+            for (t, f, m), o in zip(c["configs"], ob):
+                key = f"{t}/{f}/{'merge' if m else 'nomerge'}"
+                d["configs"][key] = d["configs"].get(key, 0) + 1
+                if "error" in o:
+                    d["errors"][o["error"]] = d["errors"].get(o["error"], 0) + 1
+                    continue
+                for fr in o["frames"]:
+                    for x in fr["objects"]:
+                        d["objects_observed"] += 1
+                        d["labels"][x["label"]] = d["labels"].get(x["label"], 0) + 1
+                        d["visibility"][str(x["vis"])] = d["visibility"].get(str(x["vis"]), 0) + 1
+                        if x["hist"] is not None:
+                            hk = str(len(x["hist"]))
+                            d["history_lengths"][hk] = d["history_lengths"].get(hk, 0) + 1
+        return d
+
+
+class C16(Prop):
+    id = "C16"
+    props_file = "Props/C16.v"
+    gen_files = ["LabelTables.v", "Enums.v"]
+    design_ref = "DESIGN.md section 4, C16"
+    technique = ("Rocq proof about an executable model of the loader AND of the nuscenes-devkit calls it makes (tables as lists of records, "
+                 "rational unit quaternions); in-Coq correspondence on dataset directories written by the harness and loaded by the real "
+                 "load_all_datasets")
+    level_text = "TODO"
+    level_note = "TODO"
+    rule = "TODO"
+    assumptions = []
+    not_proved = []
+
+    def correspondences(self):
+        return [LoadCorr()]
+
+    def cleanup(self):
+        cleanup_all()
+
+
+READY = False
+PROP = C16()
